@@ -128,8 +128,8 @@ CHECKS = {
     "C30": ("hypothesis PBT, round-trip oracle (apply/revert) on edit-script text pairs and protocol pairs",
             "Text pairs built as edit scripts over a hostile line alphabet, context sizes 0..5: apply(make_patch)==new, "
             "revert==old, identical=>empty; Protocol.diff/patch on generated multi-file protocols reproduces the "
-            "second protocol's files.", "Line separator is \\n only (other str.splitlines separators are outside "
-            "the stated domain).", "9/C30"),
+            "second protocol's files.", "Texts may contain the other characters str.splitlines splits on; "
+            "the line model is still \\n-separated.", "9/C30"),
     "C32": ("hypothesis PBT, constructor-known verdict vs ViewSection.match",
             "View names over allowed+forbidden characters with boundary lengths, code trees built by a constructor "
             "that tracks lambda bodies (LAMBDA, LAMBDA_REC, pushed literals nested in Pair/Some/Left/Right/list/Elt); "
